@@ -961,7 +961,8 @@ impl World {
         let names = ix.slot_names();
         let mut m = serde_json::Map::new();
         for (i, meta) in ix.metas.iter().enumerate() {
-            m.insert(names[i].clone(), json!({"id": self.id(&meta.pubkey), "s": meta.is_signer, "w": meta.is_writable}));
+            let id = if meta.pubkey == system_program::ID { "prog:system".to_string() } else { self.id(&meta.pubkey) };
+            m.insert(names[i].clone(), json!({"id": id, "s": meta.is_signer, "w": meta.is_writable}));
         }
         Value::Object(m)
     }
